@@ -270,6 +270,10 @@ func run(tier string, raw json.RawMessage, from int, deadline time.Time) ux.Resu
 		c := &ctx{res: &res, name: tc.Name}
 		vals := append(ukit.RawValues(tc.Spec), ukit.ValidValues(tc.Spec, 3)...)
 		for i, v := range vals {
+			if ux.Stop() {
+				res.Capped = true
+				break
+			}
 			ux.Progress(i)
 			tc.Run(c, i, v)
 		}
@@ -280,6 +284,10 @@ func run(tier string, raw json.RawMessage, from int, deadline time.Time) ux.Resu
 	sch := ukit.Build(spec)
 	vals := append(ukit.RawValues(spec), ukit.ValidValues(spec, 3)...)
 	for i, v := range vals {
+		if ux.Stop() {
+			res.Capped = true
+			break
+		}
 		ux.Progress(i)
 		c.pipeline(sch, i, v)
 	}
